@@ -16,8 +16,8 @@ from . import bridge, common, drive_deser, record, replay_deser, tlc
 
 CLAUSES = {
     "C01": {"rejected-conforming", "accepted-nonconforming", "image"},
-    "C02": {"errors-missing", "errors-spurious", "errors-duplicate", "errors-order"},
-    "C03": {"escape", "mutated"},
+    "C02": {"errors-missing", "errors-spurious", "errors-duplicate", "errors-order", "errors-escape"},
+    "C03": {"escape", "errors-escape", "mutated"},
     # on union types, every observable belongs to the union property
     "C13": {"rejected-conforming", "accepted-nonconforming", "image", "errors-missing", "errors-spurious", "escape"},
     # under coercion, likewise
